@@ -39,7 +39,7 @@ CHECKS = {
    design="§4 C14"),
  "C08": dict(
    text="Bounded symbolic model checking of every size comparison on the receive and send paths with the limits themselves symbolic: readAll / writeAll (unary HTTP), the three stream codecs' limit handling through streamHTTP.RecvMsg, streamGRPC.RecvMsg with a symbolic flag byte and all 2^32 frame lengths and (fake) decompression to an arbitrary length, streamGRPC.SendMsg with independent symbolic send and receive limits. Obligations: no payload larger than the receive limit reaches the codec (measured after decompression); nothing within the limits is refused, exactly-at-limit included.",
-   note="Trusted: go/ssa semantics, engine (witness replay), z3, recording codec, fake compressor (output length unrelated to input), sync.Pool model. WebSocket text messages through the real gobwas/ws frame reader are checked against the limit too. Outside: gzip's real expansion, limit <= 0.",
+   note="Trusted: go/ssa semantics, engine (witness replay), z3, recording codec, fake compressor (output length unrelated to input), sync.Pool model. WebSocket text messages through the real gobwas/ws frame reader are checked against the limit too. One open known finding (F-D39: a compressed gRPC frame longer than the limit around a message within it is refused; printed as a KNOWN-FINDING line, not repaired - see DESIGN 10.18). Outside: gzip with symbolic payload bytes, limit <= 0.",
    design="§4 C08"),
  "C06": dict(
    text="Bounded symbolic model checking of the stream plumbing around the real framing code: streamHTTP.RecvMsg/readMsg/decodeRequestArgs with CodecProto / CodecJSON / codecHTTPBody framing and a recording decoder, over every partition of the request bytes into reads, every EOF placement, every truncation offset and recycled buffers of several capacities; streamHTTP.SendMsg for unary, HttpBody and server-stream replies de-framed by a reference; one gRPC frame per direction. Obligation: the decoder sees exactly the sent payload sequence, then io.EOF (a stream cut inside a message yields the complete prefix and a non-EOF error).",
